@@ -172,6 +172,21 @@ fn restrict(s: &Schema, keep: &[usize]) -> Schema {
     Schema { fields: s.fields.iter().filter_map(|f| restrict_field(f, &h)).collect(), metadata: s.metadata.clone() }
 }
 
+/// `s` with every field id moved out of the table's id range and the nullability flipped
+fn foreign_field(f: &Field) -> Field {
+    let mut g = f.clone();
+    g.id = f.id + 1000;
+    if f.parent_id >= 0 {
+        g.parent_id = f.parent_id + 1000;
+    }
+    g.nullable = !f.nullable;
+    g.children = f.children.iter().map(foreign_field).collect();
+    g
+}
+fn foreign(s: &Schema) -> Schema {
+    Schema { fields: s.fields.iter().map(foreign_field).collect(), metadata: s.metadata.clone() }
+}
+
 fn chain(v: Option<Vec<&Field>>) -> Vec<i64> {
     match v {
         Some(v) => v.iter().map(|f| k_of(f)).collect(),
@@ -375,6 +390,9 @@ fn run_tree(w: &mut TraceWriter, tid: usize, t: &Tree, emb_name: &str, mutate: &
         for b in &operands {
             let sb = restrict(&schema, b);
             let inter = res_schema(sa.intersection(&sb), &emb);
+            // the same operand as another table would present it: other field ids, other nullability.  The
+            // intersection keeps the fields of `sa` (whose ids are assigned), so the answer must not change.
+            let inter_foreign = res_schema(sa.intersection(&foreign(&sb)), &emb);
             let excl = res_schema(sa.exclude(&sb), &emb);
             let merged = res_schema(sa.merge(&sb), &emb);
             let base: Arc<Schema> = Arc::new(schema.clone());
@@ -389,7 +407,8 @@ fn run_tree(w: &mut TraceWriter, tid: usize, t: &Tree, emb_name: &str, mutate: &
                           [sorted_ids(&pu, &emb), to_bare(&pu, &emb)],
                           [sorted_ids(&ps, &emb), to_bare(&ps, &emb)],
                           [sorted_ids(&pi, &emb), to_bare(&pi, &emb)],
-                          [sorted_ids(&pss, &emb), to_bare(&pss, &emb)]]));
+                          [sorted_ids(&pss, &emb), to_bare(&pss, &emb)],
+                          inter_foreign]));
         }
     }
     // ---- round trips ----------------------------------------------------------------------------------
